@@ -12,9 +12,20 @@ Definition end_type (lineMode : bool) : Z := if lineMode then token_EOL else tok
 
 Definition front_tokens (lineMode : bool) (src : bytes) : list ptok := map to_ptok (lex_all lineMode src).
 
+(* lexer.Unterminated(): in line mode the line ended inside a string - the end-of-line token then
+   starts before the end of the input (it spans the unterminated string).  The flag is set when the
+   lexer REACHES that point, i.e. when the parser has pulled the end marker (pr_all_lexed). *)
+Definition unterminated (lineMode : bool) (src : bytes) : bool :=
+  lineMode &&
+  existsb (fun t => Z.eqb (lt_type t) token_EOL && Nat.ltb (lt_start t) (List.length src)) (lex_all lineMode src).
+
+(* parser.New + ParseProgram + Errors() + ContinuationNeeded() (= continuationNeeded || l.Unterminated()) *)
 Definition front_parse (conv : numconv) (lineMode : bool) (src : bytes) : poutcome :=
   let toks := front_tokens lineMode src in
-  parse_program conv (default_fuel toks) (end_type lineMode) toks.
+  match parse_program conv (default_fuel toks) (end_type lineMode) toks with
+  | POk r => POk (mkPres (pr_tree r) (pr_errs r) (pr_cont r || (pr_all_lexed r && unterminated lineMode src)) (pr_all_lexed r))
+  | other => other
+  end.
 
 (* a parse is clean when it reports no error and asks for no continuation *)
 Definition clean (r : presult) : bool :=
